@@ -398,7 +398,7 @@ def execute(spec, w, ctx):
                 opens = [e[4] for e in out0["fs_events"] if e[1].startswith("open:w")]
                 if opens:
                     lo = opens[0]
-            at = lo + int(intr["frac"] * max(0, total - lo))
+            at = common.interrupt_at(intr, out0, lo)
             cfg["interrupt"] = {"at": at, "exc": intr.get("exc")}
             cfg["step_cap"] = 40 * cfg["step_cap"]
             if op.get("kill"):
